@@ -1,18 +1,37 @@
-(* C16_Model.v — the slice helpers of slice.go / filter.go (and the two in-place
-   heap functions) re-expressed over the array memory of SliceMem.v, statement
-   by statement after the Go code: `make`, index read/write, re-slice, `append`.
-   Plus a tiny map memory for the helpers that write to a map argument
-   (Omit, OmitBy, PartitionMap) and one representative of the read-only map
-   builders.  No proofs here.
+(* C16_Model.v — EVERY exported helper of slice.go / filter.go / find.go / math.go /
+   range.go / shuffle.go / map.go that takes a slice or a map (and the two
+   in-place heap functions) re-expressed over the object memory of SliceMem.v,
+   statement by statement after the Go code: `make`, index read/write,
+   re-slice, `append`, `copy`, map make / lookup / store / delete / range.
+   No proofs here.
 
-   Local Go maps used as sets (`keys := make(map[T]bool)`) never escape and are
-   modelled by a Gallina list.  Slices of slices ([][]T results of Chunk,
-   Partition; variadic `params ...[]T`) are Gallina lists of slice descriptors:
-   their header arrays have a different element type than the data arrays and
-   cannot alias them.  The nil slice and the zero-length literal `[]T{}` are
-   [empty_slice] (no array is allocated for them, as in Go). *)
+   Conventions
+   * Local Go maps that never escape (`keys := make(map[T]bool)`, keyCount,
+     kvMap, the result of mapByIndex whose values are slices) are Gallina
+     association lists; maps of type map[K]V that are arguments or results live
+     in the memory (SliceMem: make_map / m_store / m_delete / m_lookup /
+     m_entries).
+   * ARGUMENTS that are slices of slices or of maps (`params ...[]T`,
+     `slices ...[]T`, `mapSlice []map[K]V`, `collection []map[K]map[K]V`) live
+     in the memory too: such a slice is a [slice] descriptor whose cells hold
+     CODES of its elements, and a function [tbl] (code -> slice descriptor /
+     map id) says which element a code stands for; the helpers read the cells
+     (`params[j]`) and never write them, which is part of the frame theorem.
+     A map[K]map[K]V is a map object whose values are codes of the inner maps.
+     RESULTS of type [][]T / [2][]T / []map[K]V are Gallina lists of
+     descriptors: their header arrays are allocated by the call and nothing
+     else can reach them.  The `any` argument of Flatten/Union is the Gallina
+     tree [nest].  The nil slice and the literal `[]T{}` are [empty_slice] (no
+     array is allocated for them, as in Go).
+   * Callbacks are Gallina functions: they are pure (the assumption "callbacks
+     do not write to the arguments" of the property's setting).
+   * An early `return` / `break` inside a loop is a sticky state of [for_each]:
+     once set, the remaining iterations do nothing (in particular no reads).
+   * What Go leaves open is a parameter: [slack] (spare capacity after a
+     reallocating append), the random numbers of Shuffle, the iteration order
+     of a map (= the stored order of its entries).  No theorem depends on them. *)
 
-From Gogu Require Import Base SliceMem C14_Model.
+From Gogu Require Import Base C14_Model SliceMem.
 Local Open Scope nat_scope.
 Local Open Scope mem_scope.
 
@@ -21,11 +40,104 @@ Definition empty_slice : slice := mkSlice 0 0 0 0.
 Fixpoint memz (x : Z) (l : list Z) : bool :=
   match l with [] => false | v :: l' => if (v =? x)%Z then true else memz x l' end.
 
+(* s[i] with a Go int index: a negative index panics *)
+Definition rdz (s : slice) (i : Z) : M Z := if (i <? 0)%Z then fail else rd s (Z.to_nat i).
+
+(* outer[j] of a slice of slices / of maps: the cell holds a code, [tbl] decodes it *)
+Definition rd_elem {A} (tbl : Z -> A) (outer : slice) (j : nat) : M A := c <- rd outer j ;; ret (tbl c).
+
+(* the nested `any` argument of Flatten / Union *)
+Inductive nest :=
+| NItem (v : Z)
+| NSlice (s : slice)
+| NList (l : list nest)
+| NBad.                      (* a value of another type: "flattening error" *)
+
 Section Helpers.
   Variable slack : nat -> nat -> nat.
   Notation app := (append slack).
 
-  (* ---------------- filter.go ---------------- *)
+  (* ================= helpers that return a scalar (read only) ================= *)
+
+  (* Sum: var acc T; for _, v := range slice { acc += v } *)
+  Definition sum_go (s : slice) : M Z :=
+    for_each (seq 0 (s_len s)) (fun i acc => v <- rd s i ;; ret (acc + v)%Z) 0%Z.
+
+  (* SumBy: acc += fn(v) *)
+  Definition sum_by_go (fn : Z -> Z) (s : slice) : M Z :=
+    for_each (seq 0 (s_len s)) (fun i acc => v <- rd s i ;; ret (acc + fn v)%Z) 0%Z.
+
+  (* Mean: for i { result += slice[i] }; return result / T(len(slice))  — integer division by zero panics *)
+  Definition mean_go (s : slice) : M Z :=
+    result <- for_each (seq 0 (s_len s)) (fun i acc => v <- rd s i ;; ret (acc + v)%Z) 0%Z ;;
+    if s_len s =? 0 then fail else ret (Z.quot result (Z.of_nat (s_len s))).
+
+  (* the common shape `for k, v := range s { if cond(v) { return k } }; return -1` *)
+  Definition first_index (idxs : list nat) (cond : Z -> bool) (s : slice) : M Z :=
+    r <- for_each idxs
+           (fun k (r : option Z) =>
+              match r with
+              | Some _ => ret r
+              | None => v <- rd s k ;; if cond v then ret (Some (Z.of_nat k)) else ret None
+              end) None ;;
+    ret (match r with Some k => k | None => (-1)%Z end).
+
+  (* IndexOf / LastIndexOf / FindIndex / FindLastIndex *)
+  Definition index_of_go (s : slice) (val : Z) : M Z := first_index (seq 0 (s_len s)) (fun v => (v =? val)%Z) s.
+  Definition last_index_of_go (s : slice) (val : Z) : M Z := first_index (rev (seq 0 (s_len s))) (fun v => (v =? val)%Z) s.
+  Definition find_index_go (fn : Z -> bool) (s : slice) : M Z := first_index (seq 0 (s_len s)) fn s.
+  Definition find_last_index_go (fn : Z -> bool) (s : slice) : M Z := first_index (rev (seq 0 (s_len s))) fn s.
+
+  (* ForEach / ForEachRight: fn(v) for every element (the callback is pure) *)
+  Definition for_each_go (s : slice) : M unit :=
+    for_each (seq 0 (s_len s)) (fun i (_ : unit) => v <- rd s i ;; ret tt) tt.
+  Definition for_each_right_go (s : slice) : M unit :=
+    for_each (rev (seq 0 (s_len s))) (fun i (_ : unit) => v <- rd s i ;; ret tt) tt.
+
+  (* Reduce: actual := initVal; for _, v := range slice { actual = fn(v, actual) } *)
+  Definition reduce_go (fn : Z -> Z -> Z) (init : Z) (s : slice) : M Z :=
+    for_each (seq 0 (s_len s)) (fun i actual => v <- rd s i ;; ret (fn v actual)) init.
+
+  (* the common shape `for _, v := range s { if cond(v) { return hit } }; return miss` *)
+  Definition scan_bool (cond : Z -> bool) (hit miss : bool) (s : slice) : M bool :=
+    r <- for_each (seq 0 (s_len s))
+           (fun i (r : option bool) =>
+              match r with
+              | Some _ => ret r
+              | None => v <- rd s i ;; if cond v then ret (Some hit) else ret None
+              end) None ;;
+    ret (match r with Some b => b | None => miss end).
+
+  (* Every: if !fn(v) { return false } ... true;  Some: if fn(v) { return true } ... false;  Contains *)
+  Definition every_go (fn : Z -> bool) (s : slice) : M bool := scan_bool (fun v => negb (fn v)) false true s.
+  Definition some_go (fn : Z -> bool) (s : slice) : M bool := scan_bool fn true false s.
+  Definition contains_go (s : slice) (value : Z) : M bool := scan_bool (fun v => (v =? value)%Z) true false s.
+
+  (* FindMin / FindMax / FindMinBy / FindMaxBy:
+       var min T; if len(s) > 0 { min = s[0] }; for i { if less(s[i], min) { min = s[i] } } *)
+  Definition find_ext (less : Z -> Z -> bool) (s : slice) : M Z :=
+    m0 <- (if 0 <? s_len s then rd s 0 else ret 0%Z) ;;
+    for_each (seq 0 (s_len s)) (fun i mn => v <- rd s i ;; if less v mn then ret v else ret mn) m0.
+  Definition find_min_go (s : slice) : M Z := find_ext Z.ltb s.
+  Definition find_max_go (s : slice) : M Z := find_ext Z.gtb s.
+  Definition find_min_by_go (fn : Z -> Z) (s : slice) : M Z := find_ext (fun a b => (fn a <? fn b)%Z) s.
+  Definition find_max_by_go (fn : Z -> Z) (s : slice) : M Z := find_ext (fun a b => (fn a >? fn b)%Z) s.
+
+  (* Min / Max (math.go, variadic): if len(values) == 0 { return zero }; acc = values[0]; for v { if v < acc { acc = v } } *)
+  Definition min_max_go (less : Z -> Z -> bool) (values : slice) : M Z :=
+    if s_len values =? 0 then ret 0%Z
+    else acc <- rd values 0 ;;
+         for_each (seq 0 (s_len values)) (fun i acc => v <- rd values i ;; if less v acc then ret v else ret acc) acc.
+
+  (* Nth (find.go:168), result [value; 1 if an error is returned] *)
+  Definition nth_go (s : slice) (nth : Z) : M (list Z) :=
+    let mx := Z.of_nat (s_len s) in
+    if (((0 <=? nth) && (mx - 1 <? nth)) || ((nth <? 0) && (mx - Z.abs nth <? 0)))%Z%bool then ret [0; 1]%Z
+    else if ((0 <=? Z.abs nth) && (Z.abs nth <=? mx) && (0 <=? nth))%Z%bool
+         then v <- rdz s nth ;; ret [v; 0%Z]
+         else v <- rdz s (mx - Z.abs nth) ;; ret [v; 0%Z].
+
+  (* ================= filter.go ================= *)
 
   (* Filter: res := make([]T, 0); for _, v := range slice { if fn(v) { res = append(res, v) } } *)
   Definition filter_go (fn : Z -> bool) (s : slice) : M slice :=
@@ -61,7 +173,7 @@ Section Helpers.
   Definition reject_go (fn : Z -> bool) (s : slice) : M slice :=
     reject_loop (s_len s) fn s 0.
 
-  (* ---------------- slice.go ---------------- *)
+  (* ================= slice.go ================= *)
 
   (* Map: result := make([]T2, len(slice)); for idx, v := range slice { result[idx] = fn(v) } *)
   Definition map_go (fn : Z -> Z) (s : slice) : M slice :=
@@ -114,15 +226,51 @@ Section Helpers.
             (empty_slice, empty_slice) ;;
     ret [fst st; snd st].
 
+  (* Duplicate: keyCount := map; result := make([]T, 0, len(slice));
+       for v { keyCount[v] = 1 or ++ };  for k, v := range keyCount { if v > 1 { result = append(result, k) } } *)
+  Definition duplicate_go (s : slice) : M slice :=
+    result <- make_slice 0 (s_len s) ;;
+    keyCount <- for_each (seq 0 (s_len s))
+                  (fun i (kc : amap) =>
+                     v <- rd s i ;;
+                     match lookup kc v with
+                     | None => ret (map_set kc v 1%Z)
+                     | Some c => ret (map_set kc v (c + 1)%Z)
+                     end) [] ;;
+    for_each keyCount (fun kv result => if (1 <? snd kv)%Z then app result [fst kv] else ret result) result.
+
+  (* DuplicateWithIndex: var count int; kvMap := map[T][]int; result := map[T]int
+       for idx, v { if new { kvMap[v] = make([]int, 2); count = 1; kvMap[v][0] = idx; kvMap[v][1] = count }
+                    else { count++; kvMap[v][1] = count } }          (ONE counter for all keys, as in the Go code)
+       for k, v := range kvMap { if v[1] > 1 { result[k] = v[0] } } *)
+  Definition duplicate_with_index_go (s : slice) : M nat :=
+    result <- make_map ;;
+    st <- for_each (seq 0 (s_len s))
+            (fun idx (st : Z * amapV slice) =>
+               let (count, kvMap) := st in
+               v <- rd s idx ;;
+               match lookup kvMap v with
+               | None =>
+                   e <- make_slice 2 2 ;;
+                   wr e 0 (Z.of_nat idx) ;;; wr e 1 1%Z ;;;
+                   ret (1%Z, map_set kvMap v e)
+               | Some e => wr e 1 (count + 1)%Z ;;; ret ((count + 1)%Z, kvMap)
+               end) (0%Z, []) ;;
+    for_each (snd st)
+      (fun kv (_ : unit) =>
+         c <- rd (snd kv) 1 ;;
+         if (1 <? c)%Z then i0 <- rd (snd kv) 0 ;; m_store result (fst kv) i0 else ret tt) tt ;;;
+    ret result.
+
   (* Merge, AFTER the repair (fixes/builder-c14c16):
        merged := make([]T, 0, len(s)); merged = append(merged, s...)
        for i { merged = append(merged, params[i]...) }; return merged *)
-  Definition merge_go (s : slice) (params : list slice) : M slice :=
+  Definition merge_go (s : slice) (tbl : Z -> slice) (params : slice) : M slice :=
     merged <- make_slice 0 (s_len s) ;;
     vs <- values s ;;
     merged <- app merged vs ;;
-    for_each (seq 0 (length params))
-      (fun i merged => ps <- values (nth i params empty_slice) ;; app merged ps) merged.
+    for_each (seq 0 (s_len params))
+      (fun i merged => pi <- rd_elem tbl params i ;; ps <- values pi ;; app merged ps) merged.
 
   (* Merge as found (slice.go:236): the last statement appends ONTO THE ARGUMENT *)
   Definition merge_asfound (s : slice) (params : list slice) : M slice :=
@@ -132,24 +280,60 @@ Section Helpers.
     ms <- values merged ;;
     app s ms.
 
-  (* Intersection(params...): panics without parameters (params[0]) *)
-  Definition intersection_go (params : list slice) : M slice :=
-    match params with
-    | [] => fail
-    | p0 :: rest =>
-        for_each (seq 0 (s_len p0))
-          (fun i result =>
-             item <- rd p0 i ;;
-             rs <- values result ;;
-             if memz item rs then ret result
-             else
-               all <- for_each (seq 0 (length rest))
-                        (fun j (ok : bool) =>
-                           if ok then pj <- values (nth j rest empty_slice) ;; ret (memz item pj)
-                           else ret false) true ;;
-               if all then app result [item] else ret result)
-          empty_slice
+  (* baseFlatten(acc, slice): T -> append(acc, v); []T -> append(acc, v...);
+     []any -> for sv { acc, err = baseFlatten(acc, sv); if err != nil { return nil, err } }; default -> nil, err.
+     None = (nil, error) *)
+  Fixpoint base_flatten (acc : slice) (x : nest) : M (option slice) :=
+    match x with
+    | NItem v => r <- app acc [v] ;; ret (Some r)
+    | NSlice s => vs <- values s ;; r <- app acc vs ;; ret (Some r)
+    | NList l =>
+        (fix go (l : list nest) (acc : slice) : M (option slice) :=
+           match l with
+           | [] => ret (Some acc)
+           | sv :: l' =>
+               r <- base_flatten acc sv ;;
+               match r with None => ret None | Some acc' => go l' acc' end
+           end) l acc
+    | NBad => ret None
     end.
+  Definition or_nil (r : option slice) : slice := match r with Some s => s | None => empty_slice end.
+  (* Flatten: baseFlatten([]T{}, slice) *)
+  Definition flatten_go (x : nest) : M slice := r <- base_flatten empty_slice x ;; ret (or_nil r).
+  (* Union: flatten, err := baseFlatten([]T{}, slice); if err != nil { return nil, err }; return Unique(flatten), nil *)
+  Definition union_go (x : nest) : M slice :=
+    r <- base_flatten empty_slice x ;;
+    match r with None => ret empty_slice | Some fl => unique_go fl end.
+
+  (* Intersection(params...): panics without parameters (params[0]);
+       result := []T{}; for i < len(params[0]) { item := params[0][i]; if Contains(result, item) { continue }
+                                                for j = 1; j < len(params); j++ { if !Contains(params[j], item) { break } }
+                                                if j == len(params) { result = append(result, item) } }
+     [has item pj] is the membership test: Intersection `Contains(params[j], item)`,
+     IntersectionBy (after the repair da55b7e) `fn(v) == fn(item)` for some v of params[j] *)
+  Definition intersection_with (has : Z -> list Z -> bool) (tbl : Z -> slice) (params : slice) : M slice :=
+    p0 <- rd_elem tbl params 0 ;;
+    for_each (seq 0 (s_len p0))
+      (fun i result =>
+         item <- rd p0 i ;;
+         rs <- values result ;;
+         if memz item rs then ret result
+         else
+           all <- for_each (seq 1 (s_len params - 1))
+                    (fun j (ok : bool) =>
+                       if ok then pj <- rd_elem tbl params j ;; vs <- values pj ;; ret (has item vs)
+                       else ret false) true ;;
+           if all then app result [item] else ret result)
+      empty_slice.
+  Definition intersection_go := intersection_with memz.
+  Definition intersection_by_go (fn : Z -> Z) :=
+    intersection_with (fun item vs => existsb (fun v => (fn v =? fn item)%Z) vs).
+
+  (* a mutant kept for the self-test of the theorems (after the seeded change C16-3): an Intersection that
+     re-orders its VARIADIC parameter list before probing — it writes into the caller's [][]T *)
+  Definition intersection_reordering (tbl : Z -> slice) (params : slice) : M slice :=
+    (if 2 <? s_len params then swap params 1 2 else ret tt) ;;;
+    intersection_go tbl params.
 
   (* Without: keys := map; uni := make([]T1, 0, len(slice));
      loop: for v { for val := range values { if v == val { continue loop } }; if !keys[v] {...append} } *)
@@ -179,6 +363,19 @@ Section Helpers.
             ([], empty_slice) ;;
     ret (snd st).
 
+  (* DifferenceBy: `if fn(v) == fn(val) { continue loop }` *)
+  Definition difference_by_go (fn : Z -> Z) (s1 s2 : slice) : M slice :=
+    st <- for_each (seq 0 (s_len s1))
+            (fun i (st : list Z * slice) =>
+               let (keys, unique) := st in
+               v <- rd s1 i ;;
+               vs <- values s2 ;;
+               if existsb (fun val => (fn v =? fn val)%Z) vs then ret st
+               else if memz v keys then ret st
+               else unique' <- app unique [v] ;; ret (v :: keys, unique'))
+            ([], empty_slice) ;;
+    ret (snd st).
+
   (* Chunk (views): panics when size <= 0;
        for i { if i%size == 0 { if i+size < len { append(result, slice[i:i+size]) } else { append(result, slice[i:]) } } } *)
   Definition chunk_go (s : slice) (size : Z) : M (list slice) :=
@@ -193,11 +390,13 @@ Section Helpers.
              else c <- reslice s i (s_len s) ;; ret (result ++ [c])
            else ret result) [].
 
-  (* Drop (view): if Abs(n) < len { if n > 0 { slice[n:] } else { slice[:len-Abs(n)] } }; []T{} otherwise *)
+  (* Drop (view), after the repair 0f1558a:
+       if n > 0 && n < len(slice) { return slice[n:] }
+       if n <= 0 && n > -len(slice) { return slice[:len(slice)+n] }
+       return []T{} *)
   Definition drop_go (s : slice) (n : Z) : M slice :=
-    if (Z.abs n <? Z.of_nat (s_len s))%Z then
-      if (0 <? n)%Z then reslice s (Z.to_nat n) (s_len s)
-      else reslice s 0 (s_len s - Z.to_nat (Z.abs n))
+    if ((0 <? n) && (n <? Z.of_nat (s_len s)))%Z%bool then reslice s (Z.to_nat n) (s_len s)
+    else if ((n <=? 0) && (- Z.of_nat (s_len s) <? n))%Z%bool then reslice s 0 (Z.to_nat (Z.of_nat (s_len s) + n))
     else ret empty_slice.
 
   (* DropWhile: result := make([]T, 0, len(slice)); for v { if !fn(v) { append } } *)
@@ -212,43 +411,407 @@ Section Helpers.
     for_each (rev (seq 0 (s_len s)))
       (fun i result => v <- rd s i ;; if fn v then ret result else app result [v]) result.
 
+  (* mapByIndex(origSlice, mapSlice): result := map[T1][]T2 (local: its values are slices)
+       for idx, v := range mapSlice { if new { result[v] = make([]T2, 0, len(mapSlice)) }
+                                      result[v] = append(result[v], origSlice[idx]) } *)
+  Definition map_by_index_go (orig mapSlice : slice) : M (amapV slice) :=
+    for_each (seq 0 (s_len mapSlice))
+      (fun idx (result : amapV slice) =>
+         v <- rd mapSlice idx ;;
+         cur <- match lookup result v with
+                | None => make_slice 0 (s_len mapSlice)
+                | Some e => ret e
+                end ;;
+         o <- rd orig idx ;;
+         e' <- app cur [o] ;;
+         ret (map_set result v e')) [].
+  (* GroupBy: mapByIndex(slice, Map(slice, fn)) *)
+  Definition group_by_go (fn : Z -> Z) (s : slice) : M (amapV slice) :=
+    ms <- map_go fn s ;; map_by_index_go s ms.
+
+  (* Zip / Unzip: result := make([][]T, len(slices)); sliceLen := len(slices[0]) (0 without parameters);
+       panic unless sliceLen == len(slices); for idx, sl { panic unless len(sl) == sliceLen; result[idx] = make([]T, len(sl)) }
+       for x < sliceLen { for i < len(slices) { result[i][x] = slices[x][i] } }      (Unzip: result[x][i] = slices[i][x]) *)
+  Definition zip_alloc (tbl : Z -> slice) (slices : slice) : M (list slice) :=
+    sliceLen <- (if 0 <? s_len slices then s0 <- rd_elem tbl slices 0 ;; ret (s_len s0) else ret 0) ;;
+    if negb (sliceLen =? s_len slices) then fail
+    else for_each (seq 0 (s_len slices))
+           (fun idx (acc : list slice) =>
+              sl <- rd_elem tbl slices idx ;;
+              if negb (sliceLen =? s_len sl) then fail
+              else r <- make_slice (s_len sl) (s_len sl) ;; ret (acc ++ [r])) [].
+  Definition zip_go (tbl : Z -> slice) (slices : slice) : M (list slice) :=
+    result <- zip_alloc tbl slices ;;
+    for_each (seq 0 (s_len slices))
+      (fun x (_ : unit) =>
+         for_each (seq 0 (s_len slices))
+           (fun i (_ : unit) => sx <- rd_elem tbl slices x ;; v <- rd sx i ;; wr (nth i result empty_slice) x v) tt) tt ;;;
+    ret result.
+  Definition unzip_go (tbl : Z -> slice) (slices : slice) : M (list slice) :=
+    result <- zip_alloc tbl slices ;;
+    for_each (seq 0 (s_len slices))
+      (fun x (_ : unit) =>
+         for_each (seq 0 (s_len slices))
+           (fun i (_ : unit) => si <- rd_elem tbl slices i ;; v <- rd si x ;; wr (nth x result empty_slice) i v) tt) tt ;;;
+    ret result.
+
   (* ToSlice(args...): slice := make([]T, 0, len(args)); slice = append(slice, args...) *)
   Definition to_slice_go (args : slice) : M slice :=
     sl <- make_slice 0 (s_len args) ;;
     vs <- values args ;;
     app sl vs.
 
-  (* ---------------- heap/heap.go, heap/heapsort.go (in place) ---------------- *)
+  (* ================= shuffle.go ================= *)
+
+  (* Shuffle: dst := make([]T, len(src)); copy(dst, src);
+       for i := len(src)-1; i >= 0; i-- { j := rand.Int() % (i+1); swap(&dst[i], &dst[j]) }
+     [rnd] = the numbers rand.Int() returns, in order *)
+  Definition shuffle_go (rnd : list nat) (src : slice) : M slice :=
+    dst <- make_slice (s_len src) (s_len src) ;;
+    vs <- values src ;;
+    copy_go dst vs ;;;
+    for_each (rev (seq 0 (s_len src)))
+      (fun i (k : nat) => swap dst i (nth k rnd 0 mod (i + 1)) ;;; ret (S k)) 0 ;;;
+    ret dst.
+
+  (* ================= find.go ================= *)
+
+  (* FindAll: m := make(map[int]T, len(s)); for k, v := range s { if fn(v) { m[k] = v } } *)
+  Definition find_all_go (fn : Z -> bool) (s : slice) : M nat :=
+    m <- make_map ;;
+    for_each (seq 0 (s_len s))
+      (fun k (_ : unit) => v <- rd s k ;; if fn v then m_store m (Z.of_nat k) v else ret tt) tt ;;;
+    ret m.
+
+  (* ================= range.go ================= *)
+
+  (* for i := start; i < end; i += step { result = append(result, i) }     (N(NumToString(i)) = i on int) *)
+  Fixpoint range_up (fuel : nat) (i step e : Z) (acc : slice) : M slice :=
+    if (i <? e)%Z then
+      match fuel with
+      | O => fail
+      | S f => acc' <- app acc [i] ;; range_up f (i + step)%Z step e acc'
+      end
+    else ret acc.
+  (* for i := start; end < i; i -= Abs(step) { result = append(result, i) } *)
+  Fixpoint range_down (fuel : nat) (i astep e : Z) (acc : slice) : M slice :=
+    if (e <? i)%Z then
+      match fuel with
+      | O => fail
+      | S f => acc' <- app acc [i] ;; range_down f (i - astep)%Z astep e acc'
+      end
+    else ret acc.
+
+  (* Range(args...): None = (nil, error).  var result []T (nil); > 3 arguments: error;
+       1: end;  2: start, end (step 1);  3: start, step, end with the three error tests;  0: everything zero.
+     The loops run at most |end - start| times when step >= 1 (the fuel; a step <= 0 never enters the
+     first loop, and the second uses Abs(step) >= 1 or does not start). *)
+  Definition range_go (args : slice) : M (option slice) :=
+    let n := s_len args in
+    if 3 <? n then ret None
+    else
+      cfg <- (match n with
+              | 1 => e <- rd args 0 ;; ret (Some (0, 1, e)%Z)
+              | 2 => a <- rd args 0 ;; e <- rd args 1 ;; ret (Some (a, 1, e)%Z)
+              | 3 => a <- rd args 0 ;; st <- rd args 1 ;; e <- rd args 2 ;;
+                     if ((e <? a) && (0 <? e))%Z%bool then ret None
+                     else if (st =? 0)%Z then ret None
+                     else if ((st <? 0) && (a <? e))%Z%bool then ret None
+                     else ret (Some (a, st, e))
+              | _ => ret (Some (0, 0, 0)%Z)
+              end) ;;
+      match cfg with
+      | None => ret None
+      | Some (start, step, e) =>
+          let fuel := S (Z.to_nat (Z.abs (e - start))) in
+          if (0 <? e)%Z
+          then r <- range_up fuel start step e empty_slice ;; ret (Some r)
+          else r <- range_down fuel start (Z.abs step) e empty_slice ;; ret (Some r)
+      end.
+
+  (* RangeRight: ran, err := Range(params...); if err != nil { return nil, err }; return Reverse(ran), nil *)
+  Definition range_right_go (args : slice) : M (option slice) :=
+    r <- range_go args ;;
+    match r with
+    | None => ret None
+    | Some ran => rr <- reverse_go ran ;; ret (Some rr)
+    end.
+
+  (* ================= map.go (and the map helpers of filter.go / find.go) ================= *)
+
+  (* Keys: keys := make([]K, len(m)); idx := 0; for k := range m { keys[idx] = k; idx++ } *)
+  Definition keys_mem (id : nat) : M slice :=
+    es <- m_entries id ;;
+    keys <- make_slice (length es) (length es) ;;
+    for_each es (fun kv (idx : nat) => wr keys idx (fst kv) ;;; ret (S idx)) 0 ;;;
+    ret keys.
+  (* Values *)
+  Definition values_mem (id : nat) : M slice :=
+    es <- m_entries id ;;
+    vals <- make_slice (length es) (length es) ;;
+    for_each es (fun kv (idx : nat) => wr vals idx (snd kv) ;;; ret (S idx)) 0 ;;;
+    ret vals.
+  (* MapCollection: result := make([]V, len(m)); for _, v := range m { result[idx] = fn(v); idx++ } *)
+  Definition map_collection_mem (fn : Z -> Z) (id : nat) : M slice :=
+    es <- m_entries id ;;
+    result <- make_slice (length es) (length es) ;;
+    for_each es (fun kv (idx : nat) => wr result idx (fn (snd kv)) ;;; ret (S idx)) 0 ;;;
+    ret result.
+
+  (* MapValues: newMap := map[K]R{}; for k, v := range m { newMap[k] = fn(v) } *)
+  Definition map_values_mem (fn : Z -> Z) (id : nat) : M nat :=
+    newMap <- make_map ;;
+    es <- m_entries id ;;
+    for_each es (fun kv (_ : unit) => m_store newMap (fst kv) (fn (snd kv))) tt ;;;
+    ret newMap.
+  (* MapKeys: newMap[fn(k, v)] = v *)
+  Definition map_keys_mem (fn : Z -> Z -> Z) (id : nat) : M nat :=
+    newMap <- make_map ;;
+    es <- m_entries id ;;
+    for_each es (fun kv (_ : unit) => m_store newMap (fn (fst kv) (snd kv)) (snd kv)) tt ;;;
+    ret newMap.
+
+  (* MapEvery / MapSome / MapContains: read-only scans of the entries *)
+  Definition map_scan (cond : Z -> bool) (hit miss : bool) (id : nat) : M bool :=
+    es <- m_entries id ;;
+    ret (if existsb (fun kv => cond (snd kv)) es then hit else miss).
+  Definition map_every_mem (fn : Z -> bool) (id : nat) : M bool := map_scan (fun v => negb (fn v)) false true id.
+  Definition map_some_mem (fn : Z -> bool) (id : nat) : M bool := map_scan fn true false id.
+  Definition map_contains_mem (id : nat) (value : Z) : M bool := map_scan (fun v => (v =? value)%Z) true false id.
+
+  (* MapUnique: result := make(map[K]V, len(m)); ref := make(map[V]bool, len(m))   (ref: local)
+       for k, v := range m { if _, ok := ref[v]; !ok { ref[v] = true; result[k] = v } } *)
+  Definition map_unique_mem (id : nat) : M nat :=
+    result <- make_map ;;
+    es <- m_entries id ;;
+    for_each es
+      (fun kv (ref : list Z) =>
+         if memz (snd kv) ref then ret ref
+         else m_store result (fst kv) (snd kv) ;;; ret (snd kv :: ref)) [] ;;;
+    ret result.
+
+  (* sort.Slice(keys, <) on a slice the helper has just made: rewrites the cells of that slice *)
+  Definition sort_in_place (s : slice) : M unit := vs <- values s ;; copy_go s (sort_z vs).
+
+  (* Find: result := make(map[K]V); keys := make([]K, len(m)); fill; sort.Slice(keys, <);
+       for _, k := range keys { if fn(m[k]) { result[k] = m[k]; break } } *)
+  Definition find_mem (fn : Z -> bool) (id : nat) : M nat :=
+    result <- make_map ;;
+    es <- m_entries id ;;
+    keys <- make_slice (length es) (length es) ;;
+    for_each es (fun kv (i : nat) => wr keys i (fst kv) ;;; ret (S i)) 0 ;;;
+    sort_in_place keys ;;;
+    for_each (seq 0 (s_len keys))
+      (fun i (done : bool) =>
+         if done then ret true
+         else k <- rd keys i ;;
+              ov <- m_lookup id k ;;
+              let v := match ov with Some v => v | None => 0%Z end in
+              if fn v then m_store result k v ;;; ret true else ret false) false ;;;
+    ret result.
+
+  (* FindKey: var result K; for k, v := range m { if fn(v) { result = k; break } } *)
+  Definition find_key_mem (fn : Z -> bool) (id : nat) : M Z :=
+    es <- m_entries id ;;
+    ret (match find (fun kv => fn (snd kv)) es with Some kv => fst kv | None => 0%Z end).
+
+  (* FindByKey: result := make(map[K]V); for k, v := range m { if fn(k) { result[k] = v; break } } *)
+  Definition find_by_key_mem (fn : Z -> bool) (id : nat) : M nat :=
+    result <- make_map ;;
+    es <- m_entries id ;;
+    match find (fun kv => fn (fst kv)) es with
+    | Some kv => m_store result (fst kv) (snd kv)
+    | None => ret tt
+    end ;;;
+    ret result.
+
+  (* Invert: inverted := map[V]K{}; keys := Keys(m); for i { inverted[m[keys[i]]] = keys[i] } *)
+  Definition invert_mem (id : nat) : M nat :=
+    inverted <- make_map ;;
+    keys <- keys_mem id ;;
+    for_each (seq 0 (s_len keys))
+      (fun i (_ : unit) =>
+         k <- rd keys i ;;
+         ov <- m_lookup id k ;;
+         m_store inverted (match ov with Some v => v | None => 0%Z end) k) tt ;;;
+    ret inverted.
+
+  (* Pluck: result := []V{}; for _, m := range mapSlice { mapped := FindByKey(m, k == key);
+                                                          if _, ok := mapped[key]; ok { result = append(result, mapped[key]) } } *)
+  Definition pluck_mem (mtbl : Z -> nat) (ms : slice) (key : Z) : M slice :=
+    for_each (seq 0 (s_len ms))
+      (fun i result =>
+         id <- rd_elem mtbl ms i ;;
+         mapped <- find_by_key_mem (fun k => (k =? key)%Z) id ;;
+         ov <- m_lookup mapped key ;;
+         match ov with Some v => app result [v] | None => ret result end) empty_slice.
+
+  (* FindMinByKey / FindMaxByKey (find.go:78,138): result [value; 1 if an error is returned]
+       if len(mapSlice) == 0 { return zero, nil }; if _, ok := mapSlice[0][key]; !ok { return zero, err }
+       min = mapSlice[0][key]; for _, m := range mapSlice { mapped := FindByKey(m, k == key);
+                                                           if ok && mapped[key] < min { min = mapped[key] } } *)
+  Definition find_ext_by_key_mem (less : Z -> Z -> bool) (mtbl : Z -> nat) (ms : slice) (key : Z) : M (list Z) :=
+    if s_len ms =? 0 then ret [0; 0]%Z
+    else
+      id0 <- rd_elem mtbl ms 0 ;;
+      o0 <- m_lookup id0 key ;;
+      match o0 with
+      | None => ret [0; 1]%Z
+      | Some v0 =>
+          mn <- for_each (seq 0 (s_len ms))
+                  (fun i mn =>
+                     id <- rd_elem mtbl ms i ;;
+                     mapped <- find_by_key_mem (fun k => (k =? key)%Z) id ;;
+                     ov <- m_lookup mapped key ;;
+                     match ov with Some v => if less v mn then ret v else ret mn | None => ret mn end) v0 ;;
+          ret [mn; 0%Z]
+      end.
+
+  (* Pick(collection, keys...): result := make(map[K]V); if len(keys) == 0 { return result, err }
+       for k := range collection { if Contains(keys, k) { result[k] = collection[k] } }.   None = error *)
+  Definition pick_mem (coll : nat) (keys : slice) : M (option nat) :=
+    result <- make_map ;;
+    if s_len keys =? 0 then ret None
+    else
+      es <- m_entries coll ;;
+      for_each es
+        (fun kv (_ : unit) =>
+           c <- contains_go keys (fst kv) ;;
+           if c then ov <- m_lookup coll (fst kv) ;; m_store result (fst kv) (match ov with Some v => v | None => 0%Z end)
+           else ret tt) tt ;;;
+      ret (Some result).
+
+  (* a mutant kept for the self-test of the theorems (the seeded change C16-2): Pick takes every key it
+     finds out of its VARIADIC keys slice by swap-remove — it writes into the caller's slice:
+       if idx := IndexOf(keys, k); idx >= 0 { result[k] = collection[k]; keys[idx] = keys[len(keys)-1];
+                                              keys = keys[:len(keys)-1]; if len(keys) == 0 { break } } *)
+  Definition pick_swap_remove (coll : nat) (keys : slice) : M (option nat) :=
+    result <- make_map ;;
+    if s_len keys =? 0 then ret None
+    else
+      es <- m_entries coll ;;
+      for_each es
+        (fun kv (keys : slice) =>
+           if s_len keys =? 0 then ret keys
+           else
+             idx <- index_of_go keys (fst kv) ;;
+             if (idx <? 0)%Z then ret keys
+             else
+               ov <- m_lookup coll (fst kv) ;;
+               m_store result (fst kv) (match ov with Some v => v | None => 0%Z end) ;;;
+               last <- rd keys (s_len keys - 1) ;;
+               wr keys (Z.to_nat idx) last ;;;
+               reslice keys 0 (s_len keys - 1)) keys ;;;
+      ret (Some result).
+
+  (* PickBy: result := make(map[K]V); for k, v := range collection { if fn(k, v) { result[k] = collection[k] } } *)
+  Definition pick_by_mem (fn : Z -> Z -> bool) (coll : nat) : M nat :=
+    result <- make_map ;;
+    es <- m_entries coll ;;
+    for_each es
+      (fun kv (_ : unit) =>
+         if fn (fst kv) (snd kv)
+         then ov <- m_lookup coll (fst kv) ;; m_store result (fst kv) (match ov with Some v => v | None => 0%Z end)
+         else ret tt) tt ;;;
+    ret result.
+
+  (* Omit (in place on the map): for k := range collection { if Contains(keys, k) { delete(collection, k) } }; return collection *)
+  Definition omit_mem (coll : nat) (keys : slice) : M nat :=
+    es <- m_entries coll ;;
+    for_each es
+      (fun kv (_ : unit) => c <- contains_go keys (fst kv) ;; if c then m_delete coll (fst kv) else ret tt) tt ;;;
+    ret coll.
+
+  (* OmitBy (in place on the map) *)
+  Definition omit_by_mem (fn : Z -> Z -> bool) (coll : nat) : M nat :=
+    es <- m_entries coll ;;
+    for_each es (fun kv (_ : unit) => if fn (fst kv) (snd kv) then m_delete coll (fst kv) else ret tt) tt ;;;
+    ret coll.
+
+  (* PartitionMap: var result [2][]map[K]V; for _, m := range mapSlice { for k, v := range m {
+       m[k] = v; if fn(m) { result[0] = append(result[0], m); break } else { result[1] = append(result[1], m); break } } }
+     — it WRITES the entry it has just read into each non-empty argument map and returns references to them *)
+  Definition partition_map_mem (fn : amap -> bool) (mtbl : Z -> nat) (ms : slice) : M (list nat * list nat) :=
+    for_each (seq 0 (s_len ms))
+      (fun i (st : list nat * list nat) =>
+         let (r0, r1) := st in
+         id <- rd_elem mtbl ms i ;;
+         es <- m_entries id ;;
+         match es with
+         | [] => ret st
+         | (k, v) :: _ =>
+             m_store id k v ;;;
+             cur <- m_entries id ;;
+             if fn cur then ret (r0 ++ [id], r1) else ret (r0, r1 ++ [id])
+         end) ([], []).
+
+  (* SliceToMap: result := make(map[K]T); panic unless len(s1) == len(s2); for i { result[s1[i]] = s2[i] } *)
+  Definition slice_to_map_go (s1 s2 : slice) : M nat :=
+    result <- make_map ;;
+    if negb (s_len s1 =? s_len s2) then fail
+    else
+      for_each (seq 0 (s_len s1))
+        (fun i (_ : unit) => k <- rd s1 i ;; v <- rd s2 i ;; m_store result k v) tt ;;;
+      ret result.
+
+  (* FilterMap: filtered := map[K]V{}; for k, v := range m { if fn(v) { filtered[k] = v } } *)
+  Definition filter_map_mem (fn : Z -> bool) (id : nat) : M nat :=
+    filtered <- make_map ;;
+    es <- m_entries id ;;
+    for_each es (fun kv (_ : unit) => if fn (snd kv) then m_store filtered (fst kv) (snd kv) else ret tt) tt ;;;
+    ret filtered.
+
+  (* FilterMapCollection (after the repair 59d33be): filtered := []map[K]V{};
+       for _, item := range collection { for _, v := range item { if fn(v) { filtered = append(filtered, item); break } } }
+     — read only; the result refers to the ARGUMENT maps *)
+  Definition filter_map_collection_mem (fn : Z -> bool) (mtbl : Z -> nat) (ms : slice) : M (list nat) :=
+    for_each (seq 0 (s_len ms))
+      (fun i (filtered : list nat) =>
+         id <- rd_elem mtbl ms i ;;
+         es <- m_entries id ;;
+         if existsb (fun kv => fn (snd kv)) es then ret (filtered ++ [id]) else ret filtered) [].
+
+  (* Filter2DMapCollection (after the repair fb48a27): the items are maps of maps (objects whose values are
+     codes of the inner maps, decoded by [mtbl]; the items themselves are decoded by [otbl]); the callback
+     sees an inner map; the result refers to the ARGUMENT items *)
+  Definition filter_2d_mem (fn : amap -> bool) (otbl mtbl : Z -> nat) (coll : slice) : M (list nat) :=
+    for_each (seq 0 (s_len coll))
+      (fun i (filtered : list nat) =>
+         item <- rd_elem otbl coll i ;;
+         es <- m_entries item ;;
+         hit <- for_each es
+                  (fun e (hit : bool) => if hit then ret true else inner <- m_entries (mtbl (snd e)) ;; ret (fn inner)) false ;;
+         if hit then ret (filtered ++ [item]) else ret filtered) [].
+
+  (* ================= heap/heap.go, heap/heapsort.go (in place) ================= *)
 
   Variable comp : Z -> Z -> bool.
 
-  (* FromSlice's two nested loops, driven by fuel; the inner loop overwrites
+  (* FromSlice's two nested loops as a step function; the inner loop overwrites
      the outer loop variable (`i = current`), as in the Go code.
        inner = false : at the outer loop test (i >= 0)
-       inner = true  : at the top of the inner `for {` with the current i *)
-  Fixpoint from_slice_loop (fuel : nat) (data : slice) (inner : bool) (i : Z) : M unit :=
-    match fuel with
-    | O => fail
-    | S f =>
-        if inner then
-          let l := (2 * i + 1)%Z in
-          let r := (2 * i + 2)%Z in
-          if ((Z.of_nat (s_len data) <=? l) || (l <? 0))%Z then from_slice_loop f data false (i - 1)
-          else
-            dl <- rd data (Z.to_nat l) ;;
-            current <- (if (r <? Z.of_nat (s_len data))%Z
-                        then dr <- rd data (Z.to_nat r) ;; ret (if comp dr dl then r else l)
-                        else ret l) ;;
-            dc <- rd data (Z.to_nat current) ;;
-            di <- rd data (Z.to_nat i) ;;
-            if negb (comp dc di) then from_slice_loop f data false (i - 1)
-            else swap data (Z.to_nat i) (Z.to_nat current) ;;; from_slice_loop f data true current
-        else
-          if (0 <=? i)%Z then from_slice_loop f data true i else ret tt
-    end.
-  Definition heap_fuel (n : nat) : nat := (n + 2) * (n + 2) * (n + 2).
+       inner = true  : at the top of the inner `for {` with the current i
+     How many steps the two loops take together is not obvious because of that
+     overwriting: the loop runs under [big_fuel] (2^40 steps). *)
+  Definition from_slice_step (data : slice) (st : bool * Z) : M ((bool * Z) + unit) :=
+    let (inner, i) := st in
+    if inner then
+      let l := (2 * i + 1)%Z in
+      let r := (2 * i + 2)%Z in
+      if ((Z.of_nat (s_len data) <=? l) || (l <? 0))%Z then ret (inl (false, (i - 1)%Z))
+      else
+        dl <- rd data (Z.to_nat l) ;;
+        current <- (if (r <? Z.of_nat (s_len data))%Z
+                    then dr <- rd data (Z.to_nat r) ;; ret (if comp dr dl then r else l)
+                    else ret l) ;;
+        dc <- rd data (Z.to_nat current) ;;
+        di <- rd data (Z.to_nat i) ;;
+        if negb (comp dc di) then ret (inl (false, (i - 1)%Z))
+        else swap data (Z.to_nat i) (Z.to_nat current) ;;; ret (inl (true, current))
+    else
+      if (0 <=? i)%Z then ret (inl (true, i)) else ret (inr tt).
   Definition from_slice_go (data : slice) : M slice :=
-    from_slice_loop (heap_fuel (s_len data)) data false (Z.of_nat (s_len data) / 2 - 1) ;;;
+    run_loop big_fuel (from_slice_step data) (false, (Z.of_nat (s_len data) / 2 - 1)%Z) ;;;
     ret data.
 
   (* moveDown(n, i) — recursive in Go, fuel = depth bound *)
@@ -284,102 +847,198 @@ End Helpers.
    theorems of C16_Props quantify over.                                  *)
 
 Inductive hcall :=
-| HMerge (s : slice) (params : list slice)
+(* --- build their result in fresh storage --- *)
+| HMerge (s : slice) (tbl : Z -> slice) (params : slice)
 | HFilter (fn : Z -> bool) (s : slice)
 | HMap (fn : Z -> Z) (s : slice)
 | HUnique (s : slice)
 | HUniqueBy (fn : Z -> Z) (s : slice)
 | HPartition (fn : Z -> bool) (s : slice)
-| HIntersection (params : list slice)
+| HDuplicate (s : slice)
+| HDuplicateWithIndex (s : slice)
+| HFlatten (x : nest)
+| HUnion (x : nest)
+| HIntersection (tbl : Z -> slice) (params : slice)
+| HIntersectionBy (fn : Z -> Z) (tbl : Z -> slice) (params : slice)
 | HWithout (s vals : slice)
 | HDifference (s1 s2 : slice)
+| HDifferenceBy (fn : Z -> Z) (s1 s2 : slice)
 | HDropWhile (fn : Z -> bool) (s : slice)
 | HDropRightWhile (fn : Z -> bool) (s : slice)
+| HGroupBy (fn : Z -> Z) (s : slice)
+| HZip (tbl : Z -> slice) (slices : slice)
+| HUnzip (tbl : Z -> slice) (slices : slice)
 | HToSlice (args : slice)
-| HDrop (s : slice) (n : Z)                       (* view *)
-| HChunk (s : slice) (size : Z)                   (* views *)
-| HReject (fn : Z -> bool) (s : slice)            (* in place *)
-| HReverse (s : slice)                            (* in place *)
-| HFromSlice (comp : Z -> Z -> bool) (s : slice)  (* in place; the heap's data IS s *)
-| HSort (comp : Z -> Z -> bool) (s : slice).      (* in place; returns a copy *)
+| HShuffle (rnd : list nat) (s : slice)
+| HFindAll (fn : Z -> bool) (s : slice)
+| HRange (args : slice)
+| HRangeRight (args : slice)
+| HSliceToMap (s1 s2 : slice)
+| HKeys (id : nat)
+| HValues (id : nat)
+| HMapCollection (fn : Z -> Z) (id : nat)
+| HMapValues (fn : Z -> Z) (id : nat)
+| HMapKeys (fn : Z -> Z -> Z) (id : nat)
+| HMapUnique (id : nat)
+| HFind (fn : Z -> bool) (id : nat)
+| HFindByKey (fn : Z -> bool) (id : nat)
+| HInvert (id : nat)
+| HPluck (mtbl : Z -> nat) (ms : slice) (key : Z)
+| HPick (coll : nat) (keys : slice)
+| HPickBy (fn : Z -> Z -> bool) (coll : nat)
+| HFilterMap (fn : Z -> bool) (id : nat)
+(* --- return a scalar (read only) --- *)
+| HSum (s : slice) | HSumBy (fn : Z -> Z) (s : slice) | HMean (s : slice)
+| HIndexOf (s : slice) (v : Z) | HLastIndexOf (s : slice) (v : Z)
+| HForEach (s : slice) | HForEachRight (s : slice)
+| HReduce (fn : Z -> Z -> Z) (init : Z) (s : slice)
+| HEvery (fn : Z -> bool) (s : slice) | HSome (fn : Z -> bool) (s : slice) | HContains (s : slice) (v : Z)
+| HFindIndex (fn : Z -> bool) (s : slice) | HFindLastIndex (fn : Z -> bool) (s : slice)
+| HFindMin (s : slice) | HFindMinBy (fn : Z -> Z) (s : slice)
+| HFindMax (s : slice) | HFindMaxBy (fn : Z -> Z) (s : slice)
+| HNth (s : slice) (n : Z) | HMin (s : slice) | HMax (s : slice)
+| HMapEvery (fn : Z -> bool) (id : nat) | HMapSome (fn : Z -> bool) (id : nat) | HMapContains (id : nat) (v : Z)
+| HFindKey (fn : Z -> bool) (id : nat)
+| HFindMinByKey (mtbl : Z -> nat) (ms : slice) (key : Z) | HFindMaxByKey (mtbl : Z -> nat) (ms : slice) (key : Z)
+(* --- views: re-slice the argument / return references to the argument maps, never write --- *)
+| HDrop (s : slice) (n : Z)
+| HChunk (s : slice) (size : Z)
+| HFilterMapCollection (fn : Z -> bool) (mtbl : Z -> nat) (ms : slice)
+| HFilter2D (fn : amap -> bool) (otbl mtbl : Z -> nat) (coll : slice)
+(* --- in place on a slice --- *)
+| HReject (fn : Z -> bool) (s : slice)
+| HReverse (s : slice)
+| HFromSlice (comp : Z -> Z -> bool) (s : slice)  (* the heap's data IS s *)
+| HSort (comp : Z -> Z -> bool) (s : slice)       (* returns a copy *)
+(* --- in place on a map / write to the argument maps --- *)
+| HOmit (coll : nat) (keys : slice)
+| HOmitBy (fn : Z -> Z -> bool) (coll : nat)
+| HPartitionMap (fn : amap -> bool) (mtbl : Z -> nat) (ms : slice).
 
-Definition one {A} (c : M A) : M (list A) := r <- c ;; ret [r].
+(* what a call returns: slices (with a constant prefix: the key of a GroupBy
+   group), maps by id, plain values *)
+Inductive rref :=
+| RS (pre : list Z) (s : slice)
+| RM (id : nat)
+| RV (v : list Z).
 
-Definition run_call (slack : nat -> nat -> nat) (c : hcall) : M (list slice) :=
+Definition rs (s : slice) : rref := RS [] s.
+Definition zb (b : bool) : Z := if b then 1%Z else 0%Z.
+
+Definition one {A} (f : A -> rref) (c : M A) : M (list rref) := r <- c ;; ret [f r].
+Definition scalar (c : M Z) : M (list rref) := one (fun v => RV [v]) c.
+Definition scalar_b (c : M bool) : M (list rref) := one (fun b => RV [zb b]) c.
+
+Definition run_call (slack : nat -> nat -> nat) (c : hcall) : M (list rref) :=
   match c with
-  | HMerge s params => one (merge_go slack s params)
-  | HFilter fn s => one (filter_go slack fn s)
-  | HMap fn s => one (map_go fn s)
-  | HUnique s => one (unique_go slack s)
-  | HUniqueBy fn s => one (unique_by_go slack fn s)
-  | HPartition fn s => partition_go slack fn s
-  | HIntersection params => one (intersection_go slack params)
-  | HWithout s vals => one (without_go slack s vals)
-  | HDifference s1 s2 => one (difference_go slack s1 s2)
-  | HDropWhile fn s => one (drop_while_go slack fn s)
-  | HDropRightWhile fn s => one (drop_right_while_go slack fn s)
-  | HToSlice args => one (to_slice_go slack args)
-  | HDrop s n => one (drop_go s n)
-  | HChunk s size => chunk_go s size
-  | HReject fn s => one (reject_go slack fn s)
-  | HReverse s => one (reverse_go s)
-  | HFromSlice comp s => one (from_slice_go comp s)
-  | HSort comp s => one (sort_go comp s)
+  | HMerge s tbl params => one rs (merge_go slack s tbl params)
+  | HFilter fn s => one rs (filter_go slack fn s)
+  | HMap fn s => one rs (map_go fn s)
+  | HUnique s => one rs (unique_go slack s)
+  | HUniqueBy fn s => one rs (unique_by_go slack fn s)
+  | HPartition fn s => r <- partition_go slack fn s ;; ret (map rs r)
+  | HDuplicate s => one rs (duplicate_go slack s)
+  | HDuplicateWithIndex s => one RM (duplicate_with_index_go s)
+  | HFlatten x => one rs (flatten_go slack x)
+  | HUnion x => one rs (union_go slack x)
+  | HIntersection tbl params => one rs (intersection_go slack tbl params)
+  | HIntersectionBy fn tbl params => one rs (intersection_by_go slack fn tbl params)
+  | HWithout s vals => one rs (without_go slack s vals)
+  | HDifference s1 s2 => one rs (difference_go slack s1 s2)
+  | HDifferenceBy fn s1 s2 => one rs (difference_by_go slack fn s1 s2)
+  | HDropWhile fn s => one rs (drop_while_go slack fn s)
+  | HDropRightWhile fn s => one rs (drop_right_while_go slack fn s)
+  | HGroupBy fn s => r <- group_by_go slack fn s ;; ret (map (fun kv => RS [fst kv] (snd kv)) r)
+  | HZip tbl slices => r <- zip_go tbl slices ;; ret (map rs r)
+  | HUnzip tbl slices => r <- unzip_go tbl slices ;; ret (map rs r)
+  | HToSlice args => one rs (to_slice_go slack args)
+  | HShuffle rnd s => one rs (shuffle_go rnd s)
+  | HFindAll fn s => one RM (find_all_go fn s)
+  | HRange args => one (fun r => rs (or_nil r)) (range_go slack args)
+  | HRangeRight args => one (fun r => rs (or_nil r)) (range_right_go slack args)
+  | HSliceToMap s1 s2 => one RM (slice_to_map_go s1 s2)
+  | HKeys id => one rs (keys_mem id)
+  | HValues id => one rs (values_mem id)
+  | HMapCollection fn id => one rs (map_collection_mem fn id)
+  | HMapValues fn id => one RM (map_values_mem fn id)
+  | HMapKeys fn id => one RM (map_keys_mem fn id)
+  | HMapUnique id => one RM (map_unique_mem id)
+  | HFind fn id => one RM (find_mem fn id)
+  | HFindByKey fn id => one RM (find_by_key_mem fn id)
+  | HInvert id => one RM (invert_mem id)
+  | HPluck mtbl ms key => one rs (pluck_mem slack mtbl ms key)
+  | HPick coll keys => r <- pick_mem coll keys ;; ret (match r with Some id => [RM id] | None => [] end)
+  | HPickBy fn coll => one RM (pick_by_mem fn coll)
+  | HFilterMap fn id => one RM (filter_map_mem fn id)
+  | HSum s => scalar (sum_go s)
+  | HSumBy fn s => scalar (sum_by_go fn s)
+  | HMean s => scalar (mean_go s)
+  | HIndexOf s v => scalar (index_of_go s v)
+  | HLastIndexOf s v => scalar (last_index_of_go s v)
+  | HForEach s => r <- for_each_go s ;; ret []
+  | HForEachRight s => r <- for_each_right_go s ;; ret []
+  | HReduce fn init s => scalar (reduce_go fn init s)
+  | HEvery fn s => scalar_b (every_go fn s)
+  | HSome fn s => scalar_b (some_go fn s)
+  | HContains s v => scalar_b (contains_go s v)
+  | HFindIndex fn s => scalar (find_index_go fn s)
+  | HFindLastIndex fn s => scalar (find_last_index_go fn s)
+  | HFindMin s => scalar (find_min_go s)
+  | HFindMinBy fn s => scalar (find_min_by_go fn s)
+  | HFindMax s => scalar (find_max_go s)
+  | HFindMaxBy fn s => scalar (find_max_by_go fn s)
+  | HNth s n => one RV (nth_go s n)
+  | HMin s => scalar (min_max_go Z.ltb s)
+  | HMax s => scalar (min_max_go Z.gtb s)
+  | HMapEvery fn id => scalar_b (map_every_mem fn id)
+  | HMapSome fn id => scalar_b (map_some_mem fn id)
+  | HMapContains id v => scalar_b (map_contains_mem id v)
+  | HFindKey fn id => scalar (find_key_mem fn id)
+  | HFindMinByKey mtbl ms key => one RV (find_ext_by_key_mem Z.ltb mtbl ms key)
+  | HFindMaxByKey mtbl ms key => one RV (find_ext_by_key_mem Z.gtb mtbl ms key)
+  | HDrop s n => one rs (drop_go s n)
+  | HChunk s size => r <- chunk_go s size ;; ret (map rs r)
+  | HFilterMapCollection fn mtbl ms => r <- filter_map_collection_mem fn mtbl ms ;; ret (map RM r)
+  | HFilter2D fn otbl mtbl coll => r <- filter_2d_mem fn otbl mtbl coll ;; ret (map RM r)
+  | HReject fn s => one rs (reject_go slack fn s)
+  | HReverse s => one rs (reverse_go s)
+  | HFromSlice comp s => one rs (from_slice_go comp s)
+  | HSort comp s => one rs (sort_go comp s)
+  | HOmit coll keys => one RM (omit_mem coll keys)
+  | HOmitBy fn coll => one RM (omit_by_mem fn coll)
+  | HPartitionMap fn mtbl ms => r <- partition_map_mem fn mtbl ms ;; ret (map RM (fst r ++ snd r))
   end.
 
-(* the argument an in-place helper may modify *)
-Definition in_place_arg (c : hcall) : option slice :=
+(* what a reference shows in a memory *)
+Definition read_ref (m : mem) (r : rref) : list Z :=
+  match r with
+  | RS pre s => pre ++ read_all m s
+  | RM id => arr_of m id
+  | RV v => v
+  end.
+
+(* ---- the classes of the property's statement ---- *)
+
+Definition image {A} (tbl : Z -> A) (x : A) : Prop := exists c, x = tbl c.
+
+Inductive ckind :=
+| KFresh                             (* builds what it returns in storage of its own, or returns a plain value *)
+| KInPlaceS (s : slice)              (* may write inside the window of the slice argument s *)
+| KInPlaceM (W : nat -> Prop)        (* may store into / delete from the argument maps W *)
+| KViewS (s : slice)                 (* re-slices the argument s, never writes *)
+| KViewM (W : nat -> Prop).          (* returns references to the argument maps W, never writes *)
+
+Definition kind_of (c : hcall) : ckind :=
   match c with
-  | HReject _ s | HReverse s | HFromSlice _ s | HSort _ s => Some s
-  | _ => None
+  | HReject _ s | HReverse s | HFromSlice _ s | HSort _ s => KInPlaceS s
+  | HOmit coll _ | HOmitBy _ coll => KInPlaceM (eq coll)
+  | HPartitionMap _ mtbl _ => KInPlaceM (image mtbl)
+  | HDrop s _ | HChunk s _ => KViewS s
+  | HFilterMapCollection _ mtbl _ => KViewM (image mtbl)
+  | HFilter2D _ otbl _ _ => KViewM (image otbl)
+  | _ => KFresh
   end.
 
-(* the argument a view-returning helper re-slices *)
-Definition view_arg (c : hcall) : option slice :=
-  match c with
-  | HDrop s _ | HChunk s _ => Some s
-  | _ => None
-  end.
-
-(* ------------------------------------------------------------------ *)
-(* Map memory: maps by id                                               *)
-
-Definition mmem := list amap.
-Definition mm_get (mm : mmem) (id : nat) : amap := nth id mm [].
-Definition mm_put (mm : mmem) (id : nat) (m : amap) : mmem := set_nth mm id m.
-
-(* Omit (map.go:237): for k := range collection { if Contains(keys, k) { delete(collection, k) } }; return collection *)
-Definition omit_mm (id : nat) (ks : list Z) (mm : mmem) : nat * mmem :=
-  (id, fold_left (fun mm kv =>
-                    if contains ks (fst kv) then mm_put mm id (map_delete (mm_get mm id) (fst kv)) else mm)
-                 (mm_get mm id) mm).
-
-(* OmitBy *)
-Definition omit_by_mm (id : nat) (fn : Z -> Z -> bool) (mm : mmem) : nat * mmem :=
-  (id, fold_left (fun mm kv =>
-                    if fn (fst kv) (snd kv) then mm_put mm id (map_delete (mm_get mm id) (fst kv)) else mm)
-                 (mm_get mm id) mm).
-
-(* PartitionMap (map.go:260): writes m[k] = v (what is already there) into each
-   non-empty argument map and returns two slices of references to them *)
-Definition partition_map_mm (fn : amap -> bool) (ids : list nat) (mm : mmem) : (list nat * list nat) * mmem :=
-  fold_left (fun (st : (list nat * list nat) * mmem) id =>
-               let '(r0, r1, mm) := st in
-               match mm_get mm id with
-               | [] => st
-               | (k, v) :: _ =>
-                   let mm' := mm_put mm id (map_set (mm_get mm id) k v) in
-                   if fn (mm_get mm' id) then (r0 ++ [id], r1, mm') else (r0, r1 ++ [id], mm')
-               end) ids (([], []), mm).
-
-(* the read-only builders allocate their result: Pick / FilterMap / MapValues as representatives *)
-Definition pick_mm (id : nat) (ks : list Z) (mm : mmem) : res nat * mmem :=
-  match pick (mm_get mm id) ks with
-  | Ok r => (Ok (length mm), mm ++ [r])
-  | Err e => (Err e, mm ++ [[]])        (* Pick allocates its (empty) result before it checks the keys *)
-  | Panic => (Panic, mm)
-  end.
-Definition filter_map_mm (id : nat) (fn : Z -> bool) (mm : mmem) : nat * mmem :=
-  (length mm, mm ++ [filter_map fn (mm_get mm id)]).
-Definition map_values_mm (id : nat) (fn : Z -> Z) (mm : mmem) : nat * mmem :=
-  (length mm, mm ++ [map_values fn (mm_get mm id)]).
+(* the call is not one of the seven in-place helpers *)
+Definition not_in_place (c : hcall) : Prop :=
+  match kind_of c with KInPlaceS _ | KInPlaceM _ => False | _ => True end.
